@@ -417,10 +417,34 @@ class BorderExec(Exec):
         self.flags.add("merged")
         self.check_view(self.table, "merge")
 
-    def op_stroke(self, row, col, side, length, width, rgb, style):
+    def _border(self, width, rgb, style, shared):
+        """A Border object: a fresh one, or (shared) the one object used for every stroke of that look in this history -
+        re-using a border object for several strokes and tables is the documented pattern."""
         from numbers_parser import RGB, Border
 
-        b = Border(float(width), RGB(*rgb), style)
+        if not shared:
+            return Border(float(width), RGB(*rgb), style)
+        pool = self.__dict__.setdefault("pool", {})
+        key = (float(width), tuple(rgb), style)
+        if key not in pool:
+            pool[key] = Border(float(width), RGB(*rgb), style)
+        self.flags.add("shared_border_object")
+        return pool[key]
+
+    def op_decoy(self, count, width, rgb, style):
+        """Strokes drawn with a shared Border object on a second table of the document (they must not matter to the first)."""
+        if len(self.doc.sheets[0].tables) < 2:
+            self.doc.sheets[0].add_table("Decoy", num_rows=4, num_cols=8)
+        t2 = self.doc.sheets[0].tables[1]
+        b = self._border(width, rgb, style, True)
+        with warnings.catch_warnings():
+            warnings.simplefilter("ignore")
+            for k in range(count):
+                t2.set_cell_border(k % 4, (k // 4) % 8, ["top", "left", "bottom", "right"][k % 4], b)
+        self.check_view(self.table, "decoy")
+
+    def op_stroke(self, row, col, side, length, width, rgb, style, shared=False):
+        b = self._border(width, rgb, style, shared)
         with warnings.catch_warnings(record=True) as w:
             warnings.simplefilter("always")
             self.table.set_cell_border(row, col, side, b, length)
@@ -520,7 +544,19 @@ def make_border_machine(ctx, with_merges):
                 length = data.draw(st.integers(1, (ex.cols - col) if side in ("top", "bottom") else (ex.rows - row)))
             if ex.merges and length > 1:
                 length = 1  # strokes running through a merged region are left to single-cell calls (the API checks the start cell only)
-            self.step("stroke", row=row, col=col, side=side, length=length, width=width, rgb=rgb, style=style)
+            shared = data.draw(st.integers(0, 3)) == 0
+            if shared and getattr(ex, "pool", None) and data.draw(st.booleans()):
+                width, rgb, style = data.draw(st.sampled_from(sorted(ex.pool, key=repr)))  # the look of an object already in use
+                rgb = list(rgb)
+            self.step("stroke", row=row, col=col, side=side, length=length, width=width, rgb=rgb, style=style, shared=shared)
+
+        @rule(data=st.data(), count=st.integers(1, 12))
+        def decoy(self, data, count):
+            self.ensure(data)
+            if self.dead or not getattr(self.ex, "pool", None):
+                return
+            width, rgb, style = data.draw(st.sampled_from(sorted(self.ex.pool, key=repr)))
+            self.step("decoy", count=count, width=width, rgb=list(rgb), style=style)
 
         @rule(data=st.data())
         def merge_later(self, data):
